@@ -110,7 +110,7 @@ let fam_params s =
   let r = match s.[1] with 'L' -> TyLower | 'R' -> TyRaw | _ -> TyInvalid in
   let hk = List.init (String.length s - 2) (fun i -> match s.[i + 2] with
     | 'k' -> HkNothing | 'f' -> HkFail | 'n' -> HkClearName | 's' -> HkNs | 'v' -> HkNoVer | 'V' -> HkVer | 'u' -> HkSub
-    | 'e' -> HkEmptyQ | 'q' -> HkQual | 'm' -> HkBadCs | 'c' -> HkCs | 'N' -> HkNameX | 't' -> HkType2 | 'b' -> HkBlankCs | 'x' -> HkClearQ | 'S' -> HkNsSlashes | 'U' -> HkSubDots | _ -> failwith "hook") in
+    | 'e' -> HkEmptyQ | 'q' -> HkQual | 'm' -> HkBadCs | 'c' -> HkCs | 'N' -> HkNameX | 't' -> HkType2 | 'b' -> HkBlankCs | 'x' -> HkClearQ | 'S' -> HkNsSlashes | 'U' -> HkSubDots | 'o' -> HkOddCs | _ -> failwith "hook") in
   (c, r, hk)
 let tyrep r t = match r with
   | TyLower -> List.map (fun b -> let i = int_of_byte b in if i >= 65 && i <= 90 then byte_of_int (i + 32) else b) t
